@@ -384,6 +384,11 @@ func genERSStatus(r *rand.Rand, now time.Time) edsv1.ExtendedDaemonSetReplicaSet
 	add := func(t edsv1.ExtendedDaemonSetReplicaSetConditionType, status corev1.ConditionStatus, tr, up time.Time) {
 		st.Conditions = append(st.Conditions, edsv1.ExtendedDaemonSetReplicaSetCondition{Type: t, Status: status, LastTransitionTime: mt(tr), LastUpdateTime: mt(up)})
 	}
+	// counters left by the previous sync (stale by construction: every sync must recount)
+	if r.Intn(2) == 0 {
+		st.Desired, st.Current, st.Ready, st.Available = int32(r.Intn(8)), int32(r.Intn(8)), int32(r.Intn(8)), int32(r.Intn(8))
+		st.IgnoredUnresponsiveNodes = int32(pick(r, 0, 1, 2, 3, 7))
+	}
 	switch r.Intn(4) {
 	case 0:
 	case 1:
